@@ -45,12 +45,12 @@ def bounds(tier):
     if tier == "quick":
         return {"sizes": [[1, 1], [2, 1], [1, 2], [2, 2], [3, 1]], "easy": [[0, 0], [1, 2], [3, 4]], "supply": len(SUPPLY),
                 "nb_points": NBP, "alphas": ALPHAS, "methods": METHODS, "menu_sequences": 27, "builtin_nb_samples": 1,
-                "big_sizes": [[5, 1], [1, 6]], "light_sizes": [10, 13, 22, 49, 98, 103], "long_sizes": [1100]}
+                "big_sizes": [[5, 1], [1, 6]], "light_sizes": [10, 13, 22, 49, 98, 103], "long_sizes": [1100], "scan_sizes": [2040, 2120]}
     return {"sizes": [[1, 1], [2, 1], [1, 2], [2, 2], [3, 1], [1, 3], [3, 2], [2, 3]], "easy": [[0, 0], [1, 2], [3, 4], [8, 0], [11, 12]],
             "supply": len(SUPPLY), "nb_points": NBP + [9], "alphas": ALPHAS + [0.9], "methods": METHODS,
             "menu_sequences": 27, "builtin_nb_samples": 2,
             "big_sizes": [[5, 1], [1, 6], [10, 1], [1, 13], [14, 1], [2, 15], [7, 2], [22, 1]],
-            "light_sizes": list(range(7, 201)), "long_sizes": [1100, 2100]}
+            "light_sizes": list(range(7, 201)), "long_sizes": [1100, 2100], "scan_sizes": [2040, 5100]}
 
 
 def work(tier, seed):
@@ -80,6 +80,12 @@ def work(tier, seed):
             for which in ("pos", "neg"):
                 items.append({"light": True, "long": which, "n": n, "split": split, "easy": [0, 0], "rot": k})
                 k += 1
+    # every curve length in a contiguous range beyond 2048 points (blocked / vectorised aggregation may depend on
+    # arithmetic relations between the length and a block size): exact envelope clause only
+    lo_n, hi_n = b.get("scan_sizes", [2040, 2120])
+    for n in range(lo_n, hi_n + 1):
+        items.append({"light": True, "scan": True, "long": "pos" if n % 2 else "neg", "n": n, "split": n // 3, "easy": [0, 0], "rot": k})
+        k += 1
     return items
 
 
@@ -451,6 +457,15 @@ def _run_light(item, ctx):
                 case = {"big_class": which, "n": n, "other_score_at": one[0], "easy": [ep, en], "cfg": list(cfg), "alpha": alpha,
                         "method": method, "sampler": "identity"}
                 got = {}
+                if item.get("scan"):
+                    ctx.state()
+                    ok, r = guarded(ctx, "roc_with_ci", case, lambda: roc_with_ci(src, nb_points=None, alpha=alpha, config=cfgobj))
+                    ctx.tick()
+                    if ok:
+                        ctx.nontrivial()
+                        case = dict(case, curve_points=int(len(np.asarray(r.thresholds))))
+                        exact_envelope(ctx, case, src, r, alpha, cfgobj)
+                    continue
                 for fname, f in (("roc_with_ci", roc_with_ci), ("pointwise_band_ci", pointwise_band_ci)):
                     ctx.state()
                     ok, r = guarded(ctx, fname, case, lambda: f(src, nb_points=None, alpha=alpha, config=cfgobj))
